@@ -5,6 +5,7 @@ import z3
 from symnp import stubs, sched
 from symnp.core import R, SymBool
 from symnp.harness import unit
+from harness import mcmc_common as mc
 
 EXPLANATION = (
     "ParallelTempering (__init__, take_steps, swap, tight_pairs, uniform_pairs, return_chains, shutdown) and the worker "
@@ -105,13 +106,27 @@ def swap_is_metropolis_exchange(h, N, cp):
         h.patch(par, both=True, choice=lambda seq: seq[h.choice_int("random.choice", 0, len(seq) - 1)])
         before_pts = [c.get_last().copy() for c in chains]
         before_L = [L(p) for p in before_pts]
-        att0, suc0 = pt.attempted_swaps.copy(), pt.successful_swaps.copy()
+        att0, suc0 = np.array(pt.attempted_swaps).copy(), pt.successful_swaps.copy()
+        order = []
+
+        class _Counting(np.ndarray):      # the attempt counters, remembering the order in which pairs were counted
+            def __setitem__(self, key, value):
+                if isinstance(key, tuple) and len(key) == 2 and all(isinstance(k, (int, np.integer)) for k in key):
+                    order.append((int(key[0]), int(key[1])))
+                np.ndarray.__setitem__(self, key, value)
+        pt.attempted_swaps = np.array(pt.attempted_swaps).view(_Counting)
         pt.swap()
         sc.drain()
         us = [v for k, v in pt.rng.log if k == "u"]
-        # recover the proposed pairs from the attempt counters
-        datt = pt.attempted_swaps - att0
+        # the proposed pairs from the attempt counters; the uniform draws are consumed in the order in which the pairs are
+        # processed, which is the order in which they were counted (falls back to index order if that was not observable)
+        datt = np.asarray(pt.attempted_swaps) - att0
         pairs = [(i, j) for i in range(N) for j in range(N) if datt[i, j] == 1]
+        seen = [p for k, p in enumerate(order) if p in pairs and p not in order[:k]]
+        if sorted(seen) == sorted(pairs):
+            pairs = seen
+        elif len(pairs) > 1:
+            raise mc.HarnessOutOfDate("cannot tell in which order the proposed pairs consumed their uniform draws")
         flat = [v for p in pairs for v in p]
         h.same("each chain in at most one proposed pair", len(flat), len(set(flat)))
         h.same("one uniform draw per proposed pair", len(us), len(pairs))
